@@ -87,4 +87,5 @@ FIXED_TEXTS = ["", " ", "\n", "// only a comment", "// c\n", "zzz packet A { u8 
                "packet A {\n}\noptions {\n    LittleEndian = true;\n} // after options, last\n// and one more line\n",
                # comment texts repeat; comments are distinct tokens
                "// reserved\nroot packet A {\n    u8 a, // reserved\n    u8 b, // reserved\n    // reserved\n    u8 c, //\n    u8 d, //\n}\n// reserved\n",
+               "root packet A {\n    u16 len @lengthOf(b) `at most 100% of %d, %s`,\n    B b `50%% of %v`,\n    u32 ck @calculatedFrom(\"CRC32\") `%x %!`,\n}\npacket B {\n    @tag(1)\n    u8 x `%`,\n}\nMetaData M {\n    u8 m `100%`,\n}\n",
                "// fill ratio 0-100%! %d of %s, 50%% \\n\n// second\nroot packet Order {\n    u32 qty `filled %d of total, in %`, // 100%\n    string note `tab\there \"quoted\" $HOME`,\n}\n"]
